@@ -11,11 +11,13 @@ import (
 	"golang.org/x/crypto/nacl/sign"
 )
 
-// Finding ids attached to spec violations that are known defects of the tree.
+// Finding ids attached to spec violations that are known, open defects of the tree.
+//
+// F7 (cryptosign accepted a response signed for another challenge) and C09-HELLO-IDENTITY (identity
+// keys of HELLO survived when the authenticator omitted them) are fixed: their witnesses stay in
+// directedCases as regression replays and a recurrence is an ordinary spec violation.
 const (
-	FindingReplay      = "F7"                 // cryptosign accepts a response signed for another challenge
-	FindingLocalAuthid = "C09-LOCAL-AUTHID"   // local bypass records the authid the client wrote into HELLO
-	FindingSmuggle     = "C09-HELLO-IDENTITY" // identity keys of HELLO survive when the authenticator omits them
+	FindingLocalAuthid = "C09-LOCAL-AUTHID" // local bypass records the authid the client wrote into HELLO
 )
 
 // Violation is one sentence of the property found false on the implementation's observations.
@@ -296,7 +298,7 @@ func checkSpec(c *Case, created map[string]bool, hs *HS, o *Obs) []Violation {
 				} else if !ok {
 					bad("", "WELCOME although the response does not verify under the stored public key")
 				} else if hex.EncodeToString(msg) != chal {
-					bad(FindingReplay, "WELCOME although the signed message %x is not the challenge %s issued in this handshake (response computed for: %s challenge)",
+					bad("", "WELCOME although the signed message %x is not the challenge %s issued in this handshake (response computed for: %s challenge)",
 						msg[:8], chal[:min(16, len(chal))], o.RespFor)
 				}
 			}
@@ -345,7 +347,7 @@ func checkSpec(c *Case, created map[string]bool, hs *HS, o *Obs) []Violation {
 						continue // a generated id that happens to look the same
 					}
 				}
-				bad(FindingSmuggle, "recorded %s is %s: the value the client wrote into HELLO (the authenticator sets none)", k, key(gv))
+				bad("", "recorded %s is %s: the value the client wrote into HELLO (the authenticator sets none)", k, key(gv))
 			}
 		}
 		if _, ok := got["roles"]; ok {
